@@ -16,6 +16,15 @@
 //
 // Raw contents are compared INCLUDING the marker key (flush-id key): the snapshot S_N taken when
 // Flush(N) returned contains the clean mark of N in every store, and so must the restarted stores.
+//
+// Flush ids are opaque byte strings and need not be unique (the repository's own pool test calls
+// Flush(nil) twice). The unit TestC25RepeatedFlushIDs draws them from a tiny alphabet (nil, empty,
+// "A", "B", the id of the previous flush, a unique one), so that consecutive flushes often carry
+// equal ids and the marker alone does not tell two flushes apart. The oracle therefore never looks a
+// flush up by its id alone: at crash point p the only flushes a restart may report are the latest
+// flush that had completed at p and the flush that was running at p (see candidates), the reported
+// id must be the id of one of them, and the contents of ALL databases must equal the snapshot of
+// ONE of them that carries the reported id.
 package c25
 
 import (
@@ -83,6 +92,10 @@ type flushInfo struct {
 	// two calls are concurrent, either order is a legal outcome) but in the set of the next one.
 	mustBeAbsent map[string]bool
 	racingDrop   string // name dropped by another goroutine while this flush was running ("" = none)
+	// relation to the previous completed flush of the history (coverage accounting only)
+	sameIDAsPrev bool // carries the same id (byte-wise; nil and empty are the same id)
+	touchedDBs   int  // distinct databases with durable records of this flush
+	changedDBs   int  // databases whose contents without the marker differ from the previous flush's snapshot
 }
 
 type history struct {
@@ -109,6 +122,9 @@ type history struct {
 type genOpts struct {
 	poolOnly bool     // only the pool variant
 	ops      []string // operation alphabet (with weights by repetition)
+	// repeatIDs: flush ids come from a tiny alphabet (nil, empty, "A", "B", the previous id, a unique
+	// id) instead of being unique
+	repeatIDs bool
 }
 
 // Operation alphabets (weights by repetition). rapid.SampledFrom favours the ends of the list; the
@@ -123,7 +139,26 @@ var (
 		"raceflush", "raceflush", "raceflush", "raceflush", "flush", "flush", "flush",
 		"batchPrepare", "batchWrite", "batchWrite", "bigput",
 	}
+	// repeated-id unit: more writes and flushes, so that two consecutive flushes with >= 2 changed
+	// databases each are frequent
+	repeatOps = []string{
+		"put", "put", "put", "put", "put", "del", "batch", "batch", "open", "open", "reopen", "drop", "raceflush",
+		"putall", "putall", "flush", "flush", "flush", "flush", "batchPrepare", "batchWrite", "bigput", "put",
+	}
+	// flush id alphabet of the repeated-id unit (weights by repetition)
+	idAlphabet = []string{"unique", "nil", "empty", "A", "A", "B", "previous", "previous"}
 )
+
+// fmtID renders a flush id (nil and empty are told apart in traces, although they produce the same mark).
+func fmtID(id []byte) string {
+	switch {
+	case id == nil:
+		return "nil"
+	case len(id) == 0:
+		return `""`
+	}
+	return fmt.Sprintf("%x", id)
+}
 
 func (h *history) tracef(format string, a ...interface{}) {
 	h.trace = append(h.trace, fmt.Sprintf("@%d ", h.log.Len())+fmt.Sprintf(format, a...))
@@ -200,23 +235,45 @@ func runHistory(t *rapid.T, opts genOpts) *history {
 		}
 		doFlush := func() {
 			flushSeq++
-			id := []byte{byte(flushSeq)}
-			id = append(id, rapid.SliceOfN(rapid.SampledFrom([]byte{0x00, 0xde, 0xff}), 0, 2).Draw(t, "idtail")...)
+			kind := "unique"
+			if opts.repeatIDs {
+				kind = rapid.SampledFrom(idAlphabet).Draw(t, "flushID")
+			}
+			var id []byte
+			switch kind {
+			case "nil":
+			case "empty":
+				id = []byte{}
+			case "A", "B":
+				id = []byte(kind)
+			case "previous":
+				if len(h.flushes) > 0 {
+					if prev := h.flushes[len(h.flushes)-1].id; prev != nil {
+						id = append([]byte{}, prev...)
+					}
+				} else {
+					id = []byte("A")
+				}
+			default:
+				id = []byte{byte(flushSeq)}
+				id = append(id, rapid.SliceOfN(rapid.SampledFrom([]byte{0x00, 0xde, 0xff}), 0, 2).Draw(t, "idtail")...)
+			}
 			fi := flushInfo{id: id, start: h.log.Len(), firstMark: -1, lastMark: -1, mustBeAbsent: map[string]bool{}}
 			for n := range absent {
 				fi.mustBeAbsent[n] = true
 			}
-			h.tracef("Flush(%x) begins", id)
+			h.tracef("Flush(%s) begins", fmtID(id))
 			if err := stk.Flush(id); err != nil {
-				t.Fatalf("Flush(%x) failed: %v", id, err)
+				t.Fatalf("Flush(%s) failed: %v", fmtID(id), err)
 			}
 			fi.end = h.log.Len()
 			fi.snap = disk.State()
 			if racedInSession {
 				h.flushAfterRace++
 			}
-			marked := map[string]bool{}
+			marked, touched := map[string]bool{}, map[string]bool{}
 			for i, r := range h.log.Records()[fi.start:fi.end] {
+				touched[r.DB] = true
 				if r.Kind == crashlog.Put && bytes.Equal(r.Key, flushIDKey) {
 					if fi.firstMark < 0 {
 						fi.firstMark = fi.start + i
@@ -226,8 +283,18 @@ func runHistory(t *rapid.T, opts genOpts) *history {
 				}
 			}
 			fi.markedDBs = len(marked)
+			fi.touchedDBs = len(touched)
+			if len(h.flushes) > 0 {
+				prev := h.flushes[len(h.flushes)-1]
+				fi.sameIDAsPrev = bytes.Equal(prev.id, fi.id)
+				for name, now := range fi.snap {
+					if before, ok := prev.snap[name]; ok && !crashlog.EqualDB(withoutMark(before), withoutMark(now)) {
+						fi.changedDBs++
+					}
+				}
+			}
 			h.flushes = append(h.flushes, fi)
-			h.tracef("Flush(%x) completed", id)
+			h.tracef("Flush(%s) completed", fmtID(id))
 			for n := range pendingDrop {
 				delete(pendingDrop, n)
 			}
@@ -286,6 +353,15 @@ func runHistory(t *rapid.T, opts genOpts) *history {
 					t.Fatalf("Put(%s) failed: %v", name, err)
 				}
 				h.tracef("put %s %x=%x", name, k, v)
+			case "putall":
+				// one logical update that spans every open database (what a node does per block)
+				for _, name := range opened {
+					k, v := genKey(t), genVal(t)
+					if err := handles[name].Put(k, v); err != nil {
+						t.Fatalf("Put(%s) failed: %v", name, err)
+					}
+					h.tracef("put %s %x=%x", name, k, v)
+				}
 			case "del":
 				name := rapid.SampledFrom(opened).Draw(t, "db")
 				k := genKey(t)
@@ -537,23 +613,105 @@ func (h *history) describe(p int) string {
 	return sb.String()
 }
 
-// flushOf maps an Initialize result to a completed flush (index into h.flushes) or -1.
-// The producers report the stored clean mark, i.e. CleanPrefix||id; the bare id is accepted too.
-func (h *history) flushOf(ret []byte) int {
-	for i, f := range h.flushes {
-		if bytes.Equal(ret, f.id) {
-			return i
-		}
-		if len(ret) > 0 && ret[0] == flushable.CleanPrefix && bytes.Equal(ret[1:], f.id) {
-			return i
+// reportsID says whether an Initialize result names the flush id. The producers report the stored
+// clean mark, i.e. CleanPrefix||id; the bare id is accepted too.
+func reportsID(ret, id []byte) bool {
+	if len(ret) == 0 {
+		return false
+	}
+	return bytes.Equal(ret, id) || (ret[0] == flushable.CleanPrefix && bytes.Equal(ret[1:], id))
+}
+
+// withoutMark returns the contents of one database without the marker key.
+func withoutMark(kv map[string][]byte) map[string][]byte {
+	res := make(map[string][]byte, len(kv))
+	for k, v := range kv {
+		if k != string(flushIDKey) {
+			res[k] = v
 		}
 	}
-	return -1
+	return res
+}
+
+// candidates returns the flushes whose snapshot a restart at crash point p may legitimately report
+// (indices into h.flushes, -1 = none):
+//
+//   - latest: the last flush that had returned at p (end <= p). Earlier flushes are superseded: the
+//     caller was told that the latest one is complete, and every database that the stack knows -
+//     Initialize registers all surviving ones - carries its mark.
+//   - running: the flush that had been called but had not returned at p (start <= p < end). Its
+//     snapshot is reportable only in the sense of the property itself: if ALL databases already hold
+//     what they hold when it completes, the rest of the flush does not change anything (e.g. the
+//     dirty-flag producer re-writing an equal clean mark). At p == start nothing of it is durable yet
+//     and the restart still shows the latest completed flush.
+//
+// Flushes called after p do not exist in the crashed run and are never candidates, whatever their id.
+func (h *history) candidates(p int) (latest, running int) {
+	latest, running = -1, -1
+	for i, f := range h.flushes {
+		if f.end <= p {
+			latest = i
+		} else if f.start <= p {
+			running = i
+		}
+	}
+	return
+}
+
+// mismatch compares the restarted state with the snapshot of ONE flush; "" means that every
+// database holds exactly what it held when that flush completed:
+//   - every surviving database known to the snapshot equals it (marker included), every other
+//     surviving database is empty;
+//   - every database whose Drop() had returned before that flush was called (and that was not opened
+//     again) is absent or empty - the caller's own record, independent of the snapshot;
+//   - a database that held data at that flush may be missing only if it was dropped afterwards (a
+//     drop record between the end of the flush and p): "a dropped database is not required to
+//     reappear" (DESIGN.md section 4 C25), any other database is.
+func (h *history) mismatch(f *flushInfo, p int, names []string, raw crashlog.State) string {
+	for _, name := range names {
+		if f.mustBeAbsent[name] && len(raw[name]) != 0 {
+			return fmt.Sprintf("database %q, whose Drop() had returned before that Flush was called (and which was not opened again), "+
+				"still exists and holds %s", name, crashlog.FormatDB(raw[name]))
+		}
+		want, known := f.snap[name]
+		if !known {
+			if len(raw[name]) != 0 {
+				return fmt.Sprintf("store %q, absent at that flush, holds %s", name, crashlog.FormatDB(raw[name]))
+			}
+			continue
+		}
+		if !crashlog.EqualDB(raw[name], want) {
+			return fmt.Sprintf("store %q holds %s, at completion of that flush it held %s",
+				name, crashlog.FormatDB(raw[name]), crashlog.FormatDB(want))
+		}
+	}
+	var recs []crashlog.Record
+	if p > f.end {
+		recs = h.log.Records()[f.end:p]
+	}
+	for _, name := range f.snap.Names() {
+		if _, survives := raw[name]; survives || len(f.snap[name]) == 0 {
+			continue
+		}
+		dropped := false
+		for _, r := range recs {
+			if r.Kind == crashlog.Drop && r.DB == name {
+				dropped = true
+				break
+			}
+		}
+		if !dropped {
+			return fmt.Sprintf("store %q, which held %s at completion of that flush and was not dropped since, does not exist",
+				name, crashlog.FormatDB(f.snap[name]))
+		}
+	}
+	return ""
 }
 
 var (
 	st     = stats.New("crashpoints")
 	stRace = stats.New("droprace")
+	stIDs  = stats.New("repeatedids")
 )
 
 // checkAllPrefixes applies the oracle at every crash point of the history.
@@ -569,6 +727,8 @@ func checkAllPrefixes(t *rapid.T, h *history, st *stats.Collector) {
 		}
 		return map[string]interface{}{"variant": h.variant, "trace": h.trace, "log": recs, "crash_points": n + 1}
 	})
+	records := h.log.Records()
+	repeatedPoints, betweenPoints, betweenChangedPoints := 0, 0, 0
 	for p := 0; p <= n; p++ {
 		state := h.log.StateAt(p)
 		backend := crashlog.NewProducerOver(state, nil)
@@ -600,12 +760,30 @@ func checkAllPrefixes(t *rapid.T, h *history, st *stats.Collector) {
 			classes = append(classes, "inside_flush_2plus_dbs", h.variant+"_inside_flush_2plus_dbs")
 			anyNontrivial = true
 		}
+		latest, running := h.candidates(p)
+		if running >= 0 && p > h.flushes[running].start && h.flushes[running].sameIDAsPrev {
+			// strictly inside a flush that carries the id of the flush before it: the marks of the two
+			// flushes cannot be told apart
+			f := h.flushes[running]
+			classes = append(classes, "inside_flush_repeating_previous_id")
+			repeatedPoints++
+			if records[p-1].DB != records[p].DB {
+				// the last durable record and the first lost one belong to different databases
+				classes = append(classes, "between_dbs_of_flush_repeating_previous_id")
+				betweenPoints++
+				if f.changedDBs >= 2 {
+					classes = append(classes, "between_dbs_of_flush_repeating_previous_id_2plus_dbs_changed",
+						h.variant+"_between_dbs_of_flush_repeating_previous_id_2plus_dbs_changed")
+					betweenChangedPoints++
+				}
+			}
+		}
 
 		if err != nil {
 			classes = append(classes, "reported_dirty_or_unsynced")
 			if atCompleted >= 0 && len(names) >= 1 {
-				t.Fatalf("C25 sanity: restart exactly after completed Flush(%x) over %v reports an error: %v\n%s",
-					h.flushes[atCompleted].id, names, err, h.describe(p))
+				t.Fatalf("C25 sanity: restart exactly after completed Flush(%s) over %v reports an error: %v\n%s",
+					fmtID(h.flushes[atCompleted].id), names, err, h.describe(p))
 			}
 		} else if ret == nil {
 			classes = append(classes, "accepted_nil_id")
@@ -616,35 +794,61 @@ func checkAllPrefixes(t *rapid.T, h *history, st *stats.Collector) {
 				}
 			}
 			if atCompleted >= 0 && len(names) >= 1 {
-				t.Fatalf("C25 sanity: restart exactly after completed Flush(%x) over %v reports no flush id\n%s",
-					h.flushes[atCompleted].id, names, h.describe(p))
+				t.Fatalf("C25 sanity: restart exactly after completed Flush(%s) over %v reports no flush id\n%s",
+					fmtID(h.flushes[atCompleted].id), names, h.describe(p))
 			}
 		} else {
 			classes = append(classes, "accepted_flush_id")
-			fi := h.flushOf(ret)
-			if fi < 0 {
-				t.Fatalf("C25: Initialize(%v, nil) returned %x, which is the id of no completed flush\n%s", names, ret, h.describe(p))
-			}
-			f := h.flushes[fi]
-			for _, name := range names {
-				// independent of the snapshot: the caller's own record of what it had dropped
-				if f.mustBeAbsent[name] && len(raw[name]) != 0 {
-					t.Fatalf("C25: restart reports flush %x without error, but database %q, whose Drop() had returned before that "+
-						"Flush was called (and which was not opened again), still exists and holds %s\n%s",
-						f.id, name, crashlog.FormatDB(raw[name]), h.describe(p))
-				}
-				want, known := f.snap[name]
-				if !known {
-					if len(raw[name]) != 0 {
-						t.Fatalf("C25: restart reports flush %x but store %q, absent at that flush, holds %s\n%s",
-							f.id, name, crashlog.FormatDB(raw[name]), h.describe(p))
-					}
+			// Only the latest completed flush and the running flush may be reported; with repeated ids both
+			// may carry the reported id, then ALL databases must equal the snapshot of ONE of them.
+			fi := -1
+			var verdicts []string
+			for _, c := range []int{latest, running} {
+				if c < 0 {
 					continue
 				}
-				if !crashlog.EqualDB(raw[name], want) {
-					t.Fatalf("C25: restart reports flush %x but store %q holds %s, at completion of that flush it held %s\n%s",
-						f.id, name, crashlog.FormatDB(raw[name]), crashlog.FormatDB(want), h.describe(p))
+				f := &h.flushes[c]
+				what := "latest completed"
+				if c == running {
+					what = "running"
 				}
+				if !reportsID(ret, f.id) {
+					verdicts = append(verdicts, fmt.Sprintf("%s Flush(%s) [log %d..%d]: another id", what, fmtID(f.id), f.start, f.end))
+					continue
+				}
+				why := h.mismatch(f, p, names, raw)
+				if why == "" {
+					if fi >= 0 {
+						classes = append(classes, "accepted_equal_to_both_candidates")
+					}
+					fi = c
+					continue
+				}
+				verdicts = append(verdicts, fmt.Sprintf("%s Flush(%s) [log %d..%d]: %s", what, fmtID(f.id), f.start, f.end, why))
+			}
+			if atCompleted >= 0 && len(names) >= 1 && !reportsID(ret, h.flushes[atCompleted].id) {
+				t.Fatalf("C25 sanity: restart exactly after completed Flush(%s) reports %x\n%s",
+					fmtID(h.flushes[atCompleted].id), ret, h.describe(p))
+			}
+			if fi < 0 {
+				if len(verdicts) == 0 {
+					verdicts = []string{"no flush had been called before the crash point"}
+				}
+				t.Fatalf("C25: Initialize(%v, nil) returned %x without error, but the databases do not hold the contents of a flush with that id "+
+					"that is reportable at this crash point:\n    %s\n%s", names, ret, strings.Join(verdicts, "\n    "), h.describe(p))
+			}
+			f := h.flushes[fi]
+			if fi == latest {
+				classes = append(classes, "accepted_latest_completed_flush")
+			}
+			repeated := false
+			for i, g := range h.flushes {
+				if i != fi && g.start <= p && bytes.Equal(g.id, f.id) {
+					repeated = true
+				}
+			}
+			if repeated {
+				classes = append(classes, "accepted_id_carried_by_2plus_flushes")
 			}
 			if len(names) < len(f.snap) {
 				classes = append(classes, "accepted_with_dropped_db_absent")
@@ -661,10 +865,6 @@ func checkAllPrefixes(t *rapid.T, h *history, st *stats.Collector) {
 			if fi > 0 && h.flushes[fi-1].racingDrop != "" && f.mustBeAbsent[h.flushes[fi-1].racingDrop] {
 				classes = append(classes, "accepted_first_flush_after_overlapping_drop")
 			}
-			if atCompleted >= 0 && len(names) >= 1 && atCompleted != fi {
-				t.Fatalf("C25 sanity: restart exactly after completed Flush(%x) reports flush %x\n%s",
-					h.flushes[atCompleted].id, f.id, h.describe(p))
-			}
 			if p < f.end {
 				classes = append(classes, "accepted_before_flush_end")
 			}
@@ -673,6 +873,39 @@ func checkAllPrefixes(t *rapid.T, h *history, st *stats.Collector) {
 			classes = append(classes, "at_completed_flush")
 		}
 		st.Case(stats.Hash(hkey, p), inside2, classes...)
+	}
+	consecutiveEqual, consecutiveEqualChanged, nilOrEmpty := 0, 0, 0
+	for _, f := range h.flushes {
+		if f.sameIDAsPrev {
+			consecutiveEqual++
+			if f.changedDBs >= 2 {
+				consecutiveEqualChanged++
+			}
+		}
+		if len(f.id) == 0 {
+			nilOrEmpty++
+		}
+	}
+	st.Class("flushes", int64(len(h.flushes)))
+	if consecutiveEqual > 0 {
+		st.Class("histories_with_consecutive_equal_ids", 1)
+		st.Class("flushes_repeating_previous_id", int64(consecutiveEqual))
+	}
+	if consecutiveEqualChanged > 0 {
+		st.Class("histories_with_consecutive_equal_ids_2plus_dbs_changed", 1)
+		st.Class("flushes_repeating_previous_id_2plus_dbs_changed", int64(consecutiveEqualChanged))
+	}
+	if nilOrEmpty > 0 {
+		st.Class("flushes_with_nil_or_empty_id", int64(nilOrEmpty))
+	}
+	if repeatedPoints > 0 {
+		st.Class("histories_with_point_inside_flush_repeating_previous_id", 1)
+	}
+	if betweenPoints > 0 {
+		st.Class("histories_with_point_between_dbs_of_flush_repeating_previous_id", 1)
+	}
+	if betweenChangedPoints > 0 {
+		st.Class("histories_with_point_between_dbs_of_flush_repeating_previous_id_2plus_dbs_changed", 1)
 	}
 	st.Class("histories", 1)
 	st.Class("histories_"+h.variant, 1)
@@ -737,5 +970,18 @@ func TestC25DropRacesFlush(t *testing.T) {
 	rapid.Check(t, func(t *rapid.T) {
 		h := runHistory(t, genOpts{poolOnly: true, ops: raceOps})
 		checkAllPrefixes(t, h, stRace)
+	})
+}
+
+// TestC25RepeatedFlushIDs: histories of both producers whose flush ids come from a tiny alphabet
+// (nil, empty, "A", "B", the id of the previous flush, a unique id), so that consecutive flushes
+// often carry equal ids and the marks of two flushes cannot be told apart; same oracle at every
+// crash point (the reported id only selects among the flushes that are reportable at that point).
+func TestC25RepeatedFlushIDs(t *testing.T) {
+	stIDs.Exhaustive(true)
+	stIDs.Set("exhaustive_scope", "every prefix of the durable-operation log of each generated history; the histories (and their flush ids) are sampled")
+	rapid.Check(t, func(t *rapid.T) {
+		h := runHistory(t, genOpts{ops: repeatOps, repeatIDs: true})
+		checkAllPrefixes(t, h, stIDs)
 	})
 }
